@@ -6,7 +6,7 @@ import os
 
 import petl
 
-from engine.shim import check
+from engine.shim import assume, check
 from engine.stubs import (FailingSource, SourceFailure, default_tempdir, pickle_stub, private_tempdir)
 
 PROPERTY = 'C18'
@@ -49,29 +49,42 @@ def history(sym, op, n, bs, cache, H, nslots, fail=False):
         its = [None] * nslots
         got = [[] for _ in range(nslots)]
         done = [False] * nslots
+        used = [False] * nslots
         trace = []
         for step in range(H):
-            act = sym.choice('h%d' % step, 2 * nslots + 1)
-            if act == 2 * nslots:
+            act = sym.choice('h%d' % step, 3 * nslots + 1)
+            if act == 3 * nslots:
+                assume(view is not None)            # no-ops are pruned, not passed
                 trace.append('release-view')
                 view = None
                 continue
             i, kind = act % nslots, act // nslots
+            # symmetry: slot i+1 is only used once slot i has been used
+            assume(i == 0 or used[i - 1] or used[i])
             if kind == 1:
+                assume(its[i] is not None)
                 trace.append('release%d' % i)
                 its[i] = None
                 got[i] = []
                 done[i] = False
                 continue
-            trace.append('next%d' % i)
-            if its[i] is None:
-                if view is None:
-                    continue                        # nothing to create an iterator from
+            if kind == 2:
+                # create an iterator without advancing it
+                assume(its[i] is None and view is not None)
+                trace.append('create%d' % i)
                 its[i] = iter(view)
+                used[i] = True
                 got[i] = []
                 done[i] = False
-            if done[i]:
                 continue
+            assume(not done[i])
+            trace.append('next%d' % i)
+            if its[i] is None:
+                assume(view is not None)            # nothing to create an iterator from
+                its[i] = iter(view)
+                used[i] = True
+                got[i] = []
+                done[i] = False
             try:
                 r = next(its[i])
             except StopIteration:
@@ -119,27 +132,42 @@ def fromdicts_history(sym, n, H, nslots, fail=False):
         its = [None] * nslots
         got = [[] for _ in range(nslots)]
         done = [False] * nslots
+        used = [False] * nslots
         trace = []
         for step in range(H):
-            act = sym.choice('h%d' % step, 2 * nslots + 1)
-            if act == 2 * nslots:
+            act = sym.choice('h%d' % step, 3 * nslots + 1)
+            if act == 3 * nslots:
+                assume(view is not None)            # no-ops are pruned, not passed
                 trace.append('release-view')
                 view = None
                 continue
             i, kind = act % nslots, act // nslots
+            # symmetry: slot i+1 is only used once slot i has been used
+            assume(i == 0 or used[i - 1] or used[i])
             if kind == 1:
+                assume(its[i] is not None)
                 trace.append('release%d' % i)
                 its[i] = None
                 got[i] = []
                 done[i] = False
                 continue
+            if kind == 2:
+                # create an iterator without advancing it
+                assume(its[i] is None and view is not None)
+                trace.append('create%d' % i)
+                its[i] = iter(view)
+                used[i] = True
+                got[i] = []
+                done[i] = False
+                continue
+            assume(not done[i])
             trace.append('next%d' % i)
             if its[i] is None:
-                if view is None:
-                    continue
+                assume(view is not None)            # nothing to create an iterator from
                 its[i] = iter(view)
-            if done[i]:
-                continue
+                used[i] = True
+                got[i] = []
+                done[i] = False
             try:
                 r = next(its[i])
             except StopIteration:
